@@ -228,7 +228,7 @@ def replay_env(tr, observe=True):
     for k, c in enumerate(calls):
         # every getter is called between any two calls (a binding that caches must survive that);
         # with observe=False nothing is read until the end
-        if observe:
+        if observe and not tr.get("bulk"):
             before = env_state(env)
             if observe == "arrays":
                 env.level_1_data_array(), env.level_2_data_array(), env.get_market_data()
